@@ -207,6 +207,13 @@ example : readAll Zlib.ident.toZlibOps false [[0x03, 0x05, 0x61, 0x62, 0x05, 0x0
   roundtrip_stream_trailing Zlib.ident none [(5, [0x61, 0x62])] (by decide +kernel)
     (1, [1, 2, 3, 4]) (by decide +kernel) [0x05, 0x01] [1, 2, 3, 4] (by decide +kernel)
     (by decide) _ (by decide +kernel)
+-- the cipher laws are satisfiable (identity pair; `Model/Cfb8.lean` gives CFB8 over any block
+-- function); writer chunks `[04] [03 05 61 62]`, cipher text re-segmented as `[04 03 05] [61 62]`
+example : readAllEnc idXform () Zlib.ident.toZlibOps true [[0x04, 0x03, 0x05], [0x61, 0x62]]
+    = ([(5, [0x61, 0x62])], .eof) :=
+  roundtrip_encrypted { enc := idXform, dec := idXform, inv := fun _ _ => ⟨rfl, rfl⟩ } ()
+    Zlib.ident (some 1) [(5, [0x61, 0x62])] (by decide +kernel)
+    [[0x04], [0x03, 0x05, 0x61, 0x62]] (by decide +kernel) _ (by decide +kernel)
 example : readPacket Zlib.ident.toZlibOps true [[0x03, 0x03], [0x05, 0x61]] = .error .assertion := by
   decide +kernel
 
